@@ -31,6 +31,9 @@ pub enum Var {
     JunkAfterFirstName(Vec<u8>),
     /// flip case of the names and change one fixed-field octet
     FlipCaseXorFixed(u64, u16, u8),
+    /// flip case of the first name and write every later name as a compression pointer into the
+    /// first one (offset selector): malformed as stored RDATA, so equality must be octet-wise
+    PointerForLaterNames(u64, u8),
 }
 
 #[derive(Clone, Debug, Serialize, Deserialize, PartialEq, Eq, Hash)]
@@ -79,6 +82,36 @@ fn render(base: &[FieldSpec], var: &Var) -> Vec<u8> {
         }
         out
     };
+    if let Var::PointerForLaterNames(mask, off_sel) = var {
+        let mut out = Vec::new();
+        let mut first: Option<(usize, Vec<usize>)> = None; // (start, label offsets)
+        for f in base {
+            match f {
+                FieldSpec::Bytes(b) => out.extend_from_slice(b),
+                FieldSpec::Name(n, _) => match &first {
+                    None => {
+                        let n = flip_case(n, *mask);
+                        let start = out.len();
+                        let mut offs = Vec::new();
+                        let mut o = start;
+                        for l in &n.labels {
+                            offs.push(o);
+                            o += 1 + l.len();
+                        }
+                        offs.push(o); // the root label
+                        out.extend_from_slice(&n.wire());
+                        first = Some((start, offs));
+                    }
+                    Some((_, offs)) => {
+                        let t = offs[*off_sel as usize % offs.len()];
+                        out.push(0xc0 | (t >> 8) as u8);
+                        out.push(t as u8);
+                    }
+                },
+            }
+        }
+        return out;
+    }
     match var {
         Var::Exact => flat(base, None, None, None),
         Var::FlipCase(m) => flat(base, Some(*m), None, None),
@@ -108,6 +141,7 @@ fn render(base: &[FieldSpec], var: &Var) -> Vec<u8> {
         }
         Var::JunkAfterFirstName(j) => flat(base, None, Some(j), None),
         Var::FlipCaseXorFixed(m, sel, x) => flat(base, Some(*m), None, Some((*sel, *x))),
+        Var::PointerForLaterNames(..) => unreachable!(),
     }
 }
 
@@ -121,6 +155,7 @@ fn var_strategy() -> impl Strategy<Value = Var> {
         3 => (any::<u64>(), junk()).prop_map(|(m, j)| Var::FlipCaseJunk(m, j)),
         2 => (any::<u16>(), prop_oneof![2 => Just(0x20u8), 1 => Just(1u8), 2 => any::<u8>()]).prop_map(|(s, x)| Var::Xor(s, x)),
         1 => junk().prop_map(Var::JunkAfterFirstName),
+        2 => (prop_oneof![Just(0u64), any::<u64>()], 0u8..4).prop_map(|(m, o)| Var::PointerForLaterNames(m, o)),
         3 => (prop_oneof![1 => Just(0u64), 2 => any::<u64>()], any::<u16>(), prop_oneof![2 => Just(0x20u8), 1 => Just(1u8), 2 => any::<u8>()]).prop_map(|(m, s, x)| Var::FlipCaseXorFixed(m, s, x)),
     ]
 }
